@@ -111,6 +111,11 @@ func (ch *Channel) Invoke(ctx context.Context, methodName string, req, resp inte
 	case <-respCh:
 	}
 	if err != nil {
+		if ctxErr := ctx.Err(); ctxErr != nil {
+			// reading the reply failed because the RPC was cancelled or
+			// timed out: report that as a status, as the select above does
+			return statusFromContextError(ctxErr)
+		}
 		return err
 	}
 	return codec.Unmarshal(b, resp)
